@@ -204,8 +204,33 @@ def work_patho(ctx, seed):
     pool = [f for f in gen.PATHOLOGICAL if f is not gen.patho_contraction_on_free]
     which = pool[seed % len(pool)]
     b = which(rng)
+    label = 'patho:%s:%d' % (which.__name__, seed)
     for op, args in OPS:
-        check_op(ctx, b, op, args, 'patho:%s:%d' % (which.__name__, seed), 'patho:' + which.__name__)
+        check_op(ctx, b, op, args, label, 'patho:' + which.__name__)
+    # chains (the result of one call is the argument of the next, with whatever list sharing the first call left in it):
+    # what the writers do before printing (uncontract_spdf / make_general, then sort_basis)
+    chains = [[('uncontract_spdf', (0, )), ('sort_basis', ())], [('uncontract_spdf', (1, )), ('sort_basis', ())],
+              [('make_general', ()), ('sort_basis', ())], [('uncontract_general', ()), ('sort_basis', ())]]
+    chains += [[rng.choice(OPS) for _ in range(rng.randint(2, 3))] for _ in range(3)]
+    from basis_set_exchange import manip, sort
+    for chain in chains:
+        cur = copy.deepcopy(b)
+        ok = True
+        for op, args in chain:
+            f = getattr(sort, op) if op == 'sort_basis' else getattr(manip, op)
+            r = impl.call(f, cur, *args)          # no copy in between: the shared lists stay shared
+            if r[0] != 'ok':
+                ok = False
+                break
+            cur = r[1]
+        if not ok:
+            ctx.dist['patho-chain-raises'] += 1
+            continue
+        ctx.case((label, 'chain', str(chain)), True, 'patho:chain')
+        d = oracle.fs_diff(oracle.basis_fs(b), oracle.basis_fs(cur))
+        if d:
+            ctx.violation('manip.chain', 'function-set:' + '+'.join(o for o, _ in chain), 'chain %s changes the set of contracted functions: %s' % ([o for o, _ in chain], d),
+                          {'kind': 'chain', 'input': b, 'chain': [[o, list(a)] for o, a in chain]})
 
 
 def run(ctx):
@@ -233,10 +258,21 @@ def run(ctx):
 
 def replay(ctx, rec):
     r = rec.get('replay', rec)
-    if r.get('kind') in ('op', 'chain') and r.get('input'):
-        ops = [(r['op'], tuple(r.get('args', ())))] if r['kind'] == 'op' else [(o, tuple(a)) for o, a in r['chain']]
-        for op, args in ops:
-            check_op(ctx, r['input'], op, args, 'replay', 'replay')
+    if r.get('kind') == 'chain' and r.get('input'):
+        from basis_set_exchange import manip, sort
+        cur = copy.deepcopy(r['input'])
+        for op, args in r['chain']:
+            f = getattr(sort, op) if op == 'sort_basis' else getattr(manip, op)
+            res = impl.call(f, cur, *args)
+            if res[0] != 'ok':
+                return
+            cur = res[1]
+        ctx.case(('replay', 'chain'), True, 'replay')
+        d = oracle.fs_diff(oracle.basis_fs(r['input']), oracle.basis_fs(cur))
+        if d:
+            ctx.violation('manip.chain', 'function-set:' + '+'.join(o for o, _ in r['chain']), 'chain %s changes the set of contracted functions: %s' % ([o for o, _ in r['chain']], d), r)
+    elif r.get('kind') == 'op' and r.get('input'):
+        check_op(ctx, r['input'], r['op'], tuple(r.get('args', ())), 'replay', 'replay')
     elif r.get('kind') == 'flags':
         p = store.get_basis(r['name'], r['version'], elements=r.get('elements'))
         if p[0] == 'ok':
